@@ -23,6 +23,7 @@ EXPLANATION = (
     "agreement, delegation of the Unit operators to the container operator of the same name, and exactness of the "
     "pi-theorem arithmetic (no flooring/rounding of rational exponents). Does not decide the algebraic laws "
     "themselves nor the nullspace computation.")
+EXPLANATION += ' Also decided: the dimensionality recursion carries the combined exponent (shared with C01).'
 
 FRESH_CALLS = {"copy", "__copy__", "__new__", "__pow__", "operate", "add", "cls", "__class__", "udict", "remove", "rename"}
 
@@ -321,6 +322,8 @@ def run(ck, ix, tier):
     from .. import memo as _memo
     _memo.rule_quantity_dimensionality_memo(ck, ix)
     _memo.rule_unit_dimensionality_memo(ck, ix)
+    from .C01 import recursion_exponent_rule as _rer4
+    _rer4(ck, ix, "GenericPlainRegistry._get_dimensionality_recurse")  # dimensionality of a product/power: combined exponents carried through
     return EXPLANATION
 
 
